@@ -127,10 +127,23 @@ impl tokio_stream::Stream for StrictStream {
     // like an iterator-backed stream, it knows its exact length when it never pends (some code paths look at the hint)
     fn size_hint(&self) -> (usize, Option<usize>) { if self.pend_before.is_empty() && !self.ended { (self.items.len(), Some(self.items.len())) } else { (0, None) } }
 }
+/// An application error that carries a Status as its `source()` (a gateway wrapping a downstream failure).
+#[derive(Debug)]
+struct Wrapped(Status);
+impl std::fmt::Display for Wrapped { fn fmt(&self, f: &mut std::fmt::Formatter<'_>) -> std::fmt::Result { write!(f, "wrapped") } }
+impl std::error::Error for Wrapped { fn source(&self) -> Option<&(dyn std::error::Error + 'static)> { Some(&self.0) } }
 fn script_status(end: &Value) -> Status {
     let (meta, _) = build_meta(&end["meta"]);
-    Status::with_details_and_metadata(Code::from_i32(end["code"].as_i64().unwrap_or(2) as i32),
-        String::from_utf8_lossy(&json_bytes(&end["msg"])).into_owned(), json_bytes(&end["details"]).into(), meta)
+    let st = Status::with_details_and_metadata(Code::from_i32(end["code"].as_i64().unwrap_or(2) as i32),
+        String::from_utf8_lossy(&json_bytes(&end["msg"])).into_owned(), json_bytes(&end["details"]).into(), meta);
+    // end.via: how the handler hands its status over - directly, as a boxed error (Status::from_error), or one / two levels down the
+    // source chain of its own error type: the caller must see the same status either way
+    match end["via"].as_str().unwrap_or("direct") {
+        "boxed" => Status::from_error(Box::new(st)),
+        "source" => Status::from_error(Box::new(Wrapped(st))),
+        "source2" => Status::from_error(Box::new(std::io::Error::other(Wrapped(st)))),
+        _ => st,
+    }
 }
 impl Handler {
     fn log_req(&self, md: &tonic::metadata::MetadataMap, msgs: Vec<Vec<u8>>, err: Option<&Status>) {
@@ -300,8 +313,25 @@ async fn run_client_h2(stim: &Value, log: &Rec) {
     } else {
         let incoming = tokio_stream::StreamExt::chain(tokio_stream::once(Ok::<_, std::io::Error>(s_io)), tokio_stream::pending());
         let mut sb = tonic::transport::Server::builder();
-        if let Some(ms) = stim["server"]["timeout_ms"].as_u64() { sb = sb.timeout(std::time::Duration::from_millis(ms)); }
-        tokio::spawn(async move { let _ = sb.add_service(svc).serve_with_incoming(incoming).await; })
+        // server.layer: a (do-nothing) tower layer added to the builder before or after the timeout is configured - the order of
+        // builder calls must not matter
+        let tmo = stim["server"]["timeout_ms"].as_u64().map(std::time::Duration::from_millis);
+        match stim["server"]["layer"].as_str().unwrap_or("none") {
+            "after_timeout" => {
+                if let Some(t) = tmo { sb = sb.timeout(t); }
+                let mut sb = sb.layer(tower::layer::util::Identity::new());
+                tokio::spawn(async move { let _ = sb.add_service(svc).serve_with_incoming(incoming).await; })
+            }
+            "before_timeout" => {
+                let mut sb = sb.layer(tower::layer::util::Identity::new());
+                if let Some(t) = tmo { sb = sb.timeout(t); }
+                tokio::spawn(async move { let _ = sb.add_service(svc).serve_with_incoming(incoming).await; })
+            }
+            _ => {
+                if let Some(t) = tmo { sb = sb.timeout(t); }
+                tokio::spawn(async move { let _ = sb.add_service(svc).serve_with_incoming(incoming).await; })
+            }
+        }
     };
     let mut c = Some(c_io);
     let mut ep = tonic::transport::Endpoint::from_static("http://lab.test");
@@ -416,7 +446,9 @@ pub fn rand_script(rng: &mut impl Rng, shape: &str) -> Value {
     let end = if ok { json!({"ok":true}) } else {
         let msg = ["", "boom", "bad: é%", "a b\nc", "100% \u{1F600}"][rng.gen_range(0..5)];
         let dn = rng.gen_range(0..6);
-        json!({"ok":false,"code":rng.gen_range(1..17),"msg":str_json(msg),"details":bytes_json(&rb(rng, dn)),"meta":crate::labs::status::rand_meta(rng)})
+        let via = ["direct", "direct", "boxed", "source", "source2"][rng.gen_range(0..5)];
+        json!({"ok":false,"code":rng.gen_range(1..17),"msg":str_json(msg),"details":bytes_json(&rb(rng, dn)),"meta":crate::labs::status::rand_meta(rng),
+               "via": via})
     };
     let stream_pend: Vec<usize> = (0..=k + 1).filter(|_| rng.gen_bool(0.25)).collect();
     json!({"init_meta": crate::labs::status::rand_meta(rng), "msgs": msgs, "end": end, "fail_before": !single && !ok && rng.gen_bool(0.3), "no_compress": rng.gen_bool(0.15), "stream_pend": stream_pend})
